@@ -1,4 +1,8 @@
 use std::collections::BTreeMap;
+// verification hook (off by default): lets the shuttle scheduler own the handler mutex
+#[cfg(rodbus_verif_shuttle)]
+use shuttle::sync::{Arc, Mutex};
+#[cfg(not(rodbus_verif_shuttle))]
 use std::sync::{Arc, Mutex};
 
 use crate::exception::ExceptionCode;
